@@ -19,6 +19,9 @@ import (
 var verifTraceMu sync.Mutex
 var verifTraceSeq int
 
+// interpreters seen by the hook, kept alive so that ids are never reused
+var verifInterpIDs = map[*Interpreter]int{}
+
 // VerifCacheFresh reports whether an unexpired object is stored under hash.
 func (i *Interpreter) VerifCacheFresh(hash string) bool {
 	found, expires := i.cache.VerifPeek(hash)
@@ -88,6 +91,12 @@ func verifTraceProcess(i *Interpreter) {
 	verifTraceSeq++
 	rec := i.VerifRecord()
 	rec.Seq = verifTraceSeq
+	id, ok := verifInterpIDs[i]
+	if !ok {
+		id = len(verifInterpIDs) + 1
+		verifInterpIDs[i] = id
+	}
+	rec.Interp = fmt.Sprintf("%d-%d", os.Getpid(), id)
 	b, err := json.Marshal(rec)
 	if err != nil {
 		return
